@@ -65,14 +65,19 @@ class Ctx:
             self._cfg[key] = build_cfg(fn.node, lambda raised, caught, fn=fn: self.exc_matches(fn, raised, caught))
         return self._cfg[key]
 
-    def inlined(self, fn: FuncInfo) -> FuncInfo:
-        """*fn* with small same-module helpers spliced in (engine/inline.py); *fn* itself when nothing was spliced."""
+    def inlined(self, fn: FuncInfo, keep: Iterable[str] = ()) -> FuncInfo:
+        """
+        *fn* with small same-module helpers spliced in (engine/inline.py); *fn* itself when nothing was spliced.
+        Calls of the functions whose keys are in *keep* stay calls (the sender seam, when the rule is about its call).
+        """
         from .inline import inlined
 
-        if fn.key not in self._inlined:
-            view = inlined(self, fn)
-            self._inlined[fn.key] = view if getattr(view, "inlined_helpers", 0) else fn
-        return self._inlined[fn.key]
+        keep = tuple(sorted(keep))
+        ckey = fn.key if not keep else f"{fn.key}|keep={','.join(keep)}"
+        if ckey not in self._inlined:
+            view = inlined(self, fn, keep=keep)
+            self._inlined[ckey] = view if getattr(view, "inlined_helpers", 0) else fn
+        return self._inlined[ckey]
 
     # ---------------------------------------------------------- expansion
     def xexpand(self, fn: FuncInfo, expr: ast.AST, depth: int = 3, stop: Iterable[str] = ()) -> ast.AST:
@@ -85,6 +90,8 @@ class Ctx:
         from .exprs import clone, is_log_call
 
         defs = self.defs(fn)
+        stop = list(stop)
+        stop_set = set(stop)
         out = defs.expand(expr, stop=stop)
         if depth <= 0:
             return out
@@ -96,6 +103,13 @@ class Ctx:
                     got = ctx.r.resolve_name(fn.module, node.id)
                     if got is not None and got.kind == "value" and isinstance(got.target, (ast.Tuple, ast.List)) and got.module is fn.module:
                         return clone(got.target)
+                # a, b = helper(...): the element a simple helper returns at that position
+                if isinstance(node.ctx, ast.Load) and node.id not in stop_set and node.id in defs.unpack and len(defs.unpack[node.id]) == 1 and not defs.all_values(node.id):
+                    value, idx, _ = defs.unpack[node.id][0]
+                    if isinstance(value, ast.Call) and isinstance(idx, int):
+                        inl = self.visit_Call(clone(value))
+                        if isinstance(inl, ast.Tuple) and idx < len(inl.elts) and not any(isinstance(e, ast.Starred) for e in inl.elts):
+                            return inl.elts[idx]
                 return node
 
             def visit_Call(self, node: ast.Call) -> ast.AST:  # noqa: N802
@@ -121,6 +135,12 @@ class Ctx:
                         gb = bind_call_args(node, callee.params, skip_self=callee.cls is not None and bool(callee.params) and callee.params[0] in ("self", "cls"))
                         if pname in gb:
                             return clone(gb[pname])
+                # refusing guards (`if <test>: raise ...`, assert) do not change the value handed back
+                body = [
+                    s
+                    for s in body
+                    if not (isinstance(s, ast.Assert) or (isinstance(s, ast.If) and not s.orelse and s.body and isinstance(s.body[-1], ast.Raise) and all(isinstance(b, ast.Raise) or is_log_call(b) for b in s.body)))
+                ]
                 if not body or not isinstance(body[-1], ast.Return) or body[-1].value is None:
                     return node
                 if not all(isinstance(s, (ast.Assign, ast.AnnAssign)) and isinstance((s.targets[0] if isinstance(s, ast.Assign) else s.target), ast.Name) for s in body[:-1]):
